@@ -95,6 +95,11 @@ def growthAllowed (v : ImplView) (wm max : Nat) (ready : List Slot) (reported : 
   -- the load of a channel is what the history says (picks placed on it minus completions), not the
   -- implementation's own counter
   (ready.all fun j => j < v.refs.length && (inflight.filter (· == j)).length ≥ wm) &&
+  -- (F37) … and so for every channel of the pool that gRPC last reported READY, whether the picker used lists it or not
+  ((List.range v.refs.length).all fun j => match v.refs[j]? with
+      | some r => !(v.scRefs.any fun p => p.1 == r.subConn) ||     -- (a slot whose connection left the pool: Shutdown)
+                  lookup reported r.subConn != some .ready || (inflight.filter (· == j)).length ≥ wm
+      | none => true) &&
   v.scRefs.length < max &&
   !(v.scStates.any fun p => p.2 == .idle || p.2 == .connecting) &&
   -- judged by what gRPC last *reported* for the pool's connections, not only by the balancer's table
